@@ -9,9 +9,21 @@
  * symbolic-length __CPROVER_havoc_slice needs > 17 GB in carquet_lz4_compress).  With
  * CQV_MEMCPY_EXACT=k, copies of at most k bytes keep their contents byte by byte (lz4_count job:
  * the 8-byte words it compares are the real buffer bytes). */
+/* ghosts (set to arbitrary values by the harness entry): cqv_keep = an arbitrary address whose byte the
+ * memcpy model preserves when it lies in the destination object outside the copied range (so "every byte
+ * outside the range is unchanged" is available for the one byte an assertion looks at); cqv_j = an arbitrary
+ * index into dst used instead of a quantifier over the emitted length bytes. */
+uint8_t *cqv_keep;
+size_t cqv_j;
+
 void *memcpy(void *dst, const void *src, size_t n) {
   __CPROVER_precondition(__CPROVER_r_ok(src, n), "memcpy src readable");
   __CPROVER_precondition(__CPROVER_w_ok(dst, n), "memcpy dst writable");
+  /* C11 7.24.2.1: copying between overlapping objects is undefined (same clause as stubs/mem_stubs.c) */
+  __CPROVER_precondition(n == 0 || !__CPROVER_same_object(dst, src) ||
+                         (size_t)__CPROVER_POINTER_OFFSET(dst) + n <= (size_t)__CPROVER_POINTER_OFFSET(src) ||
+                         (size_t)__CPROVER_POINTER_OFFSET(src) + n <= (size_t)__CPROVER_POINTER_OFFSET(dst),
+                         "memcpy ranges do not overlap");
   if (n != 0) {
 #ifdef CQV_MEMCPY_EXACT
     if (n <= CQV_MEMCPY_EXACT) {
@@ -21,7 +33,16 @@ void *memcpy(void *dst, const void *src, size_t n) {
       return dst;
     }
 #endif
-    __CPROVER_havoc_object(dst);
+    {
+      _Bool k_ok = __CPROVER_same_object(cqv_keep, dst) && __CPROVER_POINTER_OFFSET(cqv_keep) >= 0 &&
+                   (size_t)__CPROVER_POINTER_OFFSET(cqv_keep) < __CPROVER_OBJECT_SIZE(dst) &&
+                   ((size_t)__CPROVER_POINTER_OFFSET(cqv_keep) < (size_t)__CPROVER_POINTER_OFFSET(dst) ||
+                    (size_t)__CPROVER_POINTER_OFFSET(cqv_keep) >= (size_t)__CPROVER_POINTER_OFFSET(dst) + n);
+      uint8_t saved = 0;
+      if (k_ok) saved = *cqv_keep;
+      __CPROVER_havoc_object(dst);
+      if (k_ok) *cqv_keep = saved;
+    }
   }
   return dst;
 }
@@ -35,11 +56,33 @@ void *memset(void *dst, int c, size_t n) {
  * end-of-block rules; the final literal run is long enough.  Checked in the real function at the hooks
  * placed by contracts/lz4.ovl (CQV_LZ4_SEQ_END just before `ip += match_len`, CQV_LZ4_LAST_BEGIN before
  * the last literals are written). */
-#define CQV_LZ4_SEQ_END \
+#define CQV_LZ4_SEQ_END CQV_LZ4_MATCH_DONE \
   __CPROVER_assert(offset >= 1 && offset <= 65535 && offset <= (size_t)(ip - src), "lz4c: offset in 1..65535 and inside the data already covered"); \
   __CPROVER_assert(match_len >= LZ4_SPEC_MINMATCH, "lz4c: match length >= minmatch"); \
   __CPROVER_assert(lz4_spec_match_allowed(src_size, (size_t)(ip - src), match_len), "lz4c: match starts >= 12 bytes before the end and leaves >= 5 literal bytes"); \
   __CPROVER_assert(lit_len == (size_t)(ip - anchor) && (size_t)(anchor - src) + lit_len + match_len <= src_size, "lz4c: sequence covers anchor..ip+match_len inside the input");
+/* C10 parse-back of the length fields (plain stores, checked in place).  The format's length code for a
+ * value v >= 15 is: nibble 15, then k bytes of 255, then one byte (v - 15 - 255k) that is < 255; the spec
+ * parser lz4_spec_ext_len returns exactly 15 + 255k + last on such bytes.  Literal length: checked right
+ * before the literal memcpy (token high nibble, k = op - token - 2).  Match length: checked at the end of
+ * the sequence (k = op - cqv_op_m - 1); the token byte is looked at through the preserved ghost address. */
+#define CQV_LZ4_INV_LIT_BYTES \
+  (*token == 0xF0 && ((cqv_j < dst_capacity && cqv_j > (size_t)__CPROVER_POINTER_OFFSET(token) && cqv_j < (size_t)__CPROVER_POINTER_OFFSET(op)) ==> dst[cqv_j] == 255))
+#define CQV_LZ4_INV_MATCH_BYTES \
+  (((cqv_j < dst_capacity && cqv_j >= (size_t)__CPROVER_POINTER_OFFSET(cqv_op_m) && cqv_j < (size_t)__CPROVER_POINTER_OFFSET(op)) ==> dst[cqv_j] == 255) && \
+   cqv_op_m[-2] == (uint8_t)(offset & 0xFF) && cqv_op_m[-1] == (uint8_t)(offset >> 8) && \
+   (cqv_keep == token ==> *token == (uint8_t)((lit_len < 15 ? (lit_len << 4) : 0xF0) | 0x0F)))
+#define CQV_LZ4_LIT_DONE \
+  __CPROVER_assert(lz4_spec_token_lit(*token) == (lit_len < 15 ? lit_len : 15), "lz4c: token high nibble is min(literal length, 15)"); \
+  __CPROVER_assert(lit_len >= 15 || op == token + 1, "lz4c: no literal length bytes when literal length < 15"); \
+  __CPROVER_assert(lit_len < 15 || (op >= token + 2 && op[-1] != 255 && (size_t)op[-1] + (((size_t)(op - token - 2)) << 8) - (size_t)(op - token - 2) == lit_len - 15), "lz4c: literal length bytes end with a byte < 255 and 255*k + last == literal length - 15"); \
+  __CPROVER_assert(lit_len < 15 || !(cqv_j > (size_t)(token - dst) && cqv_j + 1 < (size_t)(op - dst)) || dst[cqv_j] == 255, "lz4c: all literal length bytes before the last are 255");
+#define CQV_LZ4_MATCH_DONE \
+  __CPROVER_assert(match_len - 4 >= 15 || op == cqv_op_m, "lz4c: no match length bytes when match length - 4 < 15"); \
+  __CPROVER_assert(match_len - 4 < 15 || (op >= cqv_op_m + 1 && op[-1] != 255 && (size_t)op[-1] + (((size_t)(op - cqv_op_m - 1)) << 8) - (size_t)(op - cqv_op_m - 1) == match_len - 19), "lz4c: match length bytes end with a byte < 255 and 255*k + last == match length - 19"); \
+  __CPROVER_assert(match_len - 4 < 15 || !(cqv_j >= (size_t)(cqv_op_m - dst) && cqv_j + 1 < (size_t)(op - dst)) || dst[cqv_j] == 255, "lz4c: all match length bytes before the last are 255"); \
+  __CPROVER_assert(cqv_keep != token || (lz4_spec_token_lit(*token) == (lit_len < 15 ? lit_len : 15) && lz4_spec_token_match(*token) == (match_len - 4 < 15 ? match_len - 4 : 15)), "lz4c: token nibbles are min(literal length,15) / min(match length-4,15)"); \
+  __CPROVER_assert((size_t)cqv_op_m[-2] + 256u * (size_t)cqv_op_m[-1] == offset, "lz4c: offset bytes are the 16-bit little-endian offset");
 #define CQV_LZ4_LAST_BEGIN \
   __CPROVER_assert(src_size >= 13 && (size_t)(iend - anchor) >= LZ4_SPEC_LASTLITERALS, "lz4c: block ends with >= 5 literal bytes");
 
@@ -69,6 +112,8 @@ void h_lz4_compress(void) {
   uint8_t *dst = nondet_ptr();
   size_t *dst_size = nondet_ptr();
   size_t src_size = nondet_size_t(), dst_capacity = nondet_size_t();
+  cqv_keep = nondet_ptr();
+  cqv_j = nondet_size_t();
   carquet_status_t st = carquet_lz4_compress(src, src_size, dst, dst_capacity, dst_size);
   CQV_CANARY("lz4_compress returns");
   if (st == CARQUET_OK) CQV_CANARY("lz4_compress returns OK");
